@@ -1383,6 +1383,7 @@ def check_C12(chk):
     for s_ in gr_:
         s_["sched_sweep"] = 20 if chk.tier == "quick" else 60
     scens += gr_
+    scens += fam_wide_faults(chk.tier, chk.seed, "c12f")
     scens += fam_regress()
     res, st = Q.run_batch(scens, chk.wd, mode="crash", known=chk.known_tags(), par=14)
     chk.consume(res, st, props=("C12", "C01", "C02", "C03", "C04", "C05", "C07", "PANIC"))
